@@ -436,6 +436,8 @@ class Evaluator:
             dt = self.expr(d, fr)
             t = self.call_term(dt, (t,), (), fr, st)
         fr.env[st.name] = t
+        # the function can refer to itself whatever happens to the defining frame's environment afterwards (a def inside a branch)
+        self.closures[cid].env.setdefault(st.name, t)
         return None
 
     def s_ClassDef(self, st, fr):
